@@ -58,4 +58,10 @@ def modS (w a b : Nat) : Nat := ofS w (Int.tmod (toS w a) (toS w b))
 def divU (a b : Nat) : Nat := a / b
 def modU (a b : Nat) : Nat := a % b
 
+/-- `bitmap.Mask[k]` (github.com/openacid/low/bitmap): the low `k` bits set, `k ≤ 64` -/
+def mask64 (k : Nat) : Nat := 2 ^ k - 1
+
+/-- `bits.OnesCount64` -/
+def popcount64 (x : Nat) : Nat := ((List.range 64).filter (fun i => x.testBit i)).length
+
 end Generated.Go
